@@ -500,6 +500,7 @@ def rule_M5(chk, eng, funcs):
 
 
 MUTANTS = [
+    ('LAPACK may overwrite the operand', 'yastn/backend/backend_np.py', '            S = scipy.linalg.svd(data[slice(*sl)].reshape(D), full_matrices=False, compute_uv=False)\n', '            S = scipy.linalg.svd(data[slice(*sl)].reshape(D), full_matrices=False, compute_uv=False, overwrite_a=True)\n', 'M1'),
     ("gate application pops from the receiver's swaps", "yastn/tn/fpeps/_doublePepsTensor.py",
      "        swaps = dict(self.swaps)\n        if 'k4' in swaps:", "        swaps = self.swaps\n        if 'k4' in swaps:", "M1"),
     ("product_peps fills the caller's dict", "yastn/tn/fpeps/_initialize.py", "    else:\n        vectors = dict(vectors)\n", "", "M1"),
